@@ -19,6 +19,7 @@ pub mod c17;
 pub mod c20;
 pub mod c12;
 pub mod c09;
+pub mod c04;
 pub mod smoke;
 pub mod exp;
 pub mod c01;
@@ -59,6 +60,7 @@ pub fn plan(id: &str, tier: &str) -> Option<Plan> {
         "C20" => Some(Plan::new(if _t { 16 } else { 16 }, 1500)),
         "C12" => Some(Plan::new(if _t { 24 } else { 24 }, 1500)),
         "C09" => Some(Plan::new(if _t { 64 } else { 16 }, 1500)),
+        "C04" => Some(Plan::new(if _t { 42 } else { 14 }, 2400)),
         _ => None,
     }
 }
@@ -83,6 +85,7 @@ pub fn spec(id: &str) -> Option<Spec> {
         "C20" => Some(c20::spec()),
         "C12" => Some(c12::spec()),
         "C09" => Some(c09::spec()),
+        "C04" => Some(c04::spec()),
         _ => None,
     }
 }
@@ -107,6 +110,7 @@ pub fn worker(ctx: &WorkerCtx) -> WorkerReport {
         "C20" => c20::worker(ctx),
         "C12" => c12::worker(ctx),
         "C09" => c09::worker(ctx),
+        "C04" => c04::worker(ctx),
         other => {
             let mut r = WorkerReport::default();
             r.inconclusive(format!("no worker for {}", other));
